@@ -18,11 +18,13 @@ Inductive action :=
 | Rx (chunks : N)      (* that many recv()s return bytes of an unfinished request head *)
 | Req (chunks : N)     (* likewise, and the last one completes a persistent request *)
 | ReqClose (chunks : N)  (* likewise, completing a non-persistent request (Connection: close) *)
+| ReqDefer (chunks : N) (d : N)  (* likewise, but the WSGI app yields d empty results (one per pass, "not ready
+                          yet") before it produces the response; a huge d is an app that never finishes *)
 | Rewind.              (* not a service pass: http Server.wind to a tymist whose tyme is the step's tyme;
                           from here on pass tymes are on that time base *)
 
 Definition has_traffic (a : action) : bool :=
-  match a with Quiet | Rewind => false | Rx k | Req k | ReqClose k => (0 <? k)%N end.
+  match a with Quiet | Rewind => false | Rx k | Req k | ReqClose k | ReqDefer k _ => (0 <? k)%N end.
 Definition is_wind (a : action) : bool := match a with Rewind => true | _ => false end.
 
 (* one pass: tyme, client action, and how many bytes the kernel accepts from one
@@ -36,6 +38,8 @@ Record conn := { st : Z;            (* tymer._start *)
                  timedout : bool;   (* ... by the idle check *)
                  persisted : bool;  (* some request was persistent: tymeout zeroed for good *)
                  responding : bool; (* a non-persistent request is complete: no parser any more *)
+                 inprog : bool;     (* its Responder exists and has not ended: response in progress *)
+                 wait : N;          (* empty results the app still yields before the response *)
                  pend : N;          (* len(remoter.txbs) *)
                  last : Z }.        (* ghost: tyme of the latest pass in which bytes moved, or of the latest
                                        wind if later (accept tyme at first), on the time base in force *)
@@ -43,38 +47,52 @@ Record conn := { st : Z;            (* tymer._start *)
 (* Remoter(tymeout=T) created at tyme t0: Tymer(duration=T) started at t0 *)
 Definition accept (T t0 : Z) : conn :=
   {| st := t0; sp := t0 + T; tmo := T; closed := false; timedout := false; persisted := false;
-     responding := false; pend := 0; last := t0 |}.
+     responding := false; inprog := false; wait := 0%N; pend := 0; last := t0 |}.
 
 (* Remoter.refresh = tymer.start(): same duration, from now *)
 Definition refresh (now : Z) (c : conn) : conn :=
   {| st := now; sp := now + (sp c - st c); tmo := tmo c; closed := closed c; timedout := timedout c;
-     persisted := persisted c; responding := responding c; pend := pend c; last := now |}.
+     persisted := persisted c; responding := responding c; inprog := inprog c; wait := wait c; pend := pend c; last := now |}.
 
 Definition expired (now : Z) (c : conn) : bool := sp c <=? now.   (* tyme >= _stop *)
 
 Definition close (idle : bool) (c : conn) : conn :=
   {| st := st c; sp := sp c; tmo := tmo c; closed := true; timedout := idle; persisted := persisted c;
-     responding := responding c; pend := pend c; last := last c |}.
+     responding := responding c; inprog := inprog c; wait := wait c; pend := pend c; last := last c |}.
 
 (* checkPersisted of a persistent request: remoter.tymeout = 0.0 *)
 Definition persist (c : conn) : conn :=
   {| st := st c; sp := sp c; tmo := 0; closed := closed c; timedout := timedout c; persisted := true;
-     responding := responding c; pend := pend c; last := last c |}.
+     responding := responding c; inprog := inprog c; wait := wait c; pend := pend c; last := last c |}.
 Definition respond (c : conn) : conn :=
   {| st := st c; sp := sp c; tmo := tmo c; closed := closed c; timedout := timedout c; persisted := persisted c;
-     responding := true; pend := pend c; last := last c |}.
+     responding := true; inprog := inprog c; wait := wait c; pend := pend c; last := last c |}.
 Definition set_pend (n : N) (c : conn) : conn :=
   {| st := st c; sp := sp c; tmo := tmo c; closed := closed c; timedout := timedout c; persisted := persisted c;
-     responding := responding c; pend := n; last := last c |}.
+     responding := responding c; inprog := inprog c; wait := wait c; pend := n; last := last c |}.
 
-(* serviceReqs + the Responder's first service: a completed request queues the R response bytes *)
-Definition requests (R : N) (a : action) (c : conn) : conn :=
+Definition set_resp (b : bool) (w : N) (c : conn) : conn :=
+  {| st := st c; sp := sp c; tmo := tmo c; closed := closed c; timedout := timedout c; persisted := persisted c;
+     responding := responding c; inprog := b; wait := w; pend := pend c; last := last c |}.
+
+(* serviceReqs: a completed request gets a Responder (a persistent one answers at once here) *)
+Definition dispatch (R : N) (a : action) (c : conn) : conn :=
   if responding c then c
   else match a with
        | Req _ => persist (set_pend (pend c + R)%N c)
-       | ReqClose _ => respond (set_pend (pend c + R)%N c)
+       | ReqClose _ => set_resp true 0 (respond c)
+       | ReqDefer _ d => set_resp true d (respond c)
        | _ => c
        end.
+(* serviceReps: one Responder.service() step of a response in progress: an empty result, or the
+   R response bytes are queued and the Responder has ended *)
+Definition reps (R : N) (c : conn) : conn :=
+  if inprog c then
+    (if (wait c =? 0)%N then set_resp false 0 (set_pend (pend c + R)%N c)
+     else set_resp true (wait c - 1)%N c)
+  else c.
+(* serviceReqs + serviceReps (without the final close) *)
+Definition requests (R : N) (a : action) (c : conn) : conn := reps R (dispatch R a c).
 
 (* Remoter.serviceSends: one send of all of .txbs; refresh only if the kernel took bytes *)
 Definition sends (now : Z) (cap : N) (c : conn) : conn :=
@@ -93,7 +111,7 @@ Definition pass (R : N) (p : step) (c : conn) : conn :=
     else
       let c1 := if has_traffic a then refresh now c else c in
       let c2 := requests R a c1 in
-      if responding c2 && (pend c2 =? 0)%N then close false c2
+      if responding c2 && negb (inprog c2) && (pend c2 =? 0)%N then close false c2
       else sends now cap c2
   end.
 
@@ -111,7 +129,8 @@ Definition moved (R : N) (p : step) (c : conn) : bool :=
   | (now, a, cap) =>
     negb (is_wind a) &&
     (has_traffic a ||
-     (let c2 := requests R a c in (0 <? pend c2)%N && (0 <? cap)%N && negb (responding c2 && (pend c2 =? 0)%N)))
+     (let c2 := requests R a c in
+      (0 <? pend c2)%N && (0 <? cap)%N && negb (responding c2 && negb (inprog c2) && (pend c2 =? 0)%N)))
   end.
 (* a pass in which the client sends nothing and the kernel accepts nothing *)
 Definition blocked (p : step) : bool :=
@@ -128,22 +147,22 @@ Fixpoint busy (R : N) (T : Z) (c : conn) (sched : list step) : Prop :=
 
 (* ---------- correspondence ---------- *)
 Record case := { k_T : Z; k_t0 : Z; k_R : N; k_sched : list step;
-                 (* per pass: closed, remoter.tymeout, and while open: tymer start/stop, len(txbs) (else 0 0 0) *)
-                 k_obs : list (bool * Z * Z * Z * N) }.
+                 (* per pass: closed, remoter.tymeout, and while open: tymer start/stop, len(txbs), response in progress (else 0 0 0 false) *)
+                 k_obs : list (bool * Z * Z * Z * N * bool) }.
 
-Definition view (c : conn) : bool * Z * Z * Z * N :=
-  if closed c then (true, tmo c, 0, 0, 0%N) else (false, tmo c, st c, sp c, pend c).
+Definition view (c : conn) : bool * Z * Z * Z * N * bool :=
+  if closed c then (true, tmo c, 0, 0, 0%N, false) else (false, tmo c, st c, sp c, pend c, inprog c).
 
-Fixpoint trace (R : N) (c : conn) (sched : list step) : list (bool * Z * Z * Z * N) :=
+Fixpoint trace (R : N) (c : conn) (sched : list step) : list (bool * Z * Z * Z * N * bool) :=
   match sched with
   | [] => []
   | p :: r => let c1 := pass R p c in view c1 :: trace R c1 r
   end.
 
-Definition obs_eqb (x y : bool * Z * Z * Z * N) : bool :=
+Definition obs_eqb (x y : bool * Z * Z * Z * N * bool) : bool :=
   match x, y with
-  | (c1, t1, a1, b1, n1), (c2, t2, a2, b2, n2) =>
-    Bool.eqb c1 c2 && Z.eqb t1 t2 && Z.eqb a1 a2 && Z.eqb b1 b2 && N.eqb n1 n2
+  | (c1, t1, a1, b1, n1, i1), (c2, t2, a2, b2, n2, i2) =>
+    Bool.eqb c1 c2 && Z.eqb t1 t2 && Z.eqb a1 a2 && Z.eqb b1 b2 && N.eqb n1 n2 && Bool.eqb i1 i2
   end.
 
 Definition check_case (k : case) : bool :=
@@ -161,23 +180,25 @@ Definition branch (R : N) (p : step) (c : conn) : list nat :=
     let out := (0 <? pend c2)%N in
     let some := (0 <? cap)%N in
     let part := (cap <? pend c2)%N in
-    let done := responding c2 && (pend c2 =? 0)%N in
+    let done := responding c2 && negb (inprog c2) && (pend c2 =? 0)%N in
     (if closed c then [0]
      else if is_wind a then [if back then 19 else 20]
-     else if armed && expired now c then [if stuck then 11 else 1]
+     else if armed && expired now c then [if inprog c then 21 else if stuck then 11 else 1]
      else (match a with
            | Quiet => if persisted c then 2 else if armed then 3 else 4
            | Rx _ => if persisted c then 5 else if armed then (if edge then 6 else 7) else 8
            | Req _ => if responding c then 17 else if persisted c then 9 else 10
            | ReqClose _ => if responding c then 17 else 16
+          | ReqDefer _ _ => if responding c then 17 else 22
           | Rewind => 0
            end)
-          :: [if done then 12 else if out then (if some then (if part then 13 else 14) else 15) else 18])%nat
+          :: [if done then 12 else if out then (if some then (if part then 13 else 14) else 15)
+              else if inprog c2 then 23 else 18])%nat
   end.
 Fixpoint branches (R : N) (c : conn) (sched : list step) : list nat :=
   match sched with
   | [] => []
   | p :: r => branch R p c ++ branches R (pass R p c) r
   end.
-Definition n_branches : nat := 21.
+Definition n_branches : nat := 24.
 Definition case_branches (k : case) : list nat := branches (k_R k) (accept (k_T k) (k_t0 k)) (k_sched k).
